@@ -354,6 +354,10 @@ def conclude(prop, plan, tier, seed, res, t0, extra_cov=None):
         "minima": plan.get("minima", {}),
         "inconclusive_reasons": res.inconclusive[:10],
     }
+    for k, evname in plan.get("cov_from_events", {}).items():
+        cov["cases"] = cases
+        cov["distinct_case_signatures"] = len(sigs)
+        cov[k] = events.get(evname, 0)
     if plan.get("exhaustive"):
         cov["exhaustive"] = True
     if extra_cov:
